@@ -118,6 +118,7 @@ def _writer_unit(kind, dims):
                             for n in range(NB):
                                 a[ib, m, n] = CNum("M_%d_%d_%d_%d" % (ik, ib, m, n))
                     me.data[ik] = a
+                me.bk_reorder = {ik: rnp.arange(NNB)[::-1].copy() for ik in range(NK)}      # a non-trivial reordering record: the data ARE already in b-vector order
                 bk = _Obj()
                 bk.neighbours = {ik: rnp.array([(ik + 1 + ib) % NK for ib in range(NNB)]) for ik in range(NK)}
                 bk.G = {ik: rnp.array([[ib, -ik, 1] for ib in range(NNB)]) for ik in range(NK)}
